@@ -131,6 +131,13 @@ class CallMixin:
             return self.zip_longest(node, st)
         if q == "itertools.chain.from_iterable":
             return self.flatcat(self.materialise(self.eval(node.args[0], st), st, node), st)
+        if q == "collections.defaultdict" and len(node.args) == 2 and not node.keywords:
+            # defaultdict(factory, mapping): the mapping's items (insertion of defaults on reads of missing keys is not modelled)
+            self.collector.assumptions.add(f"{self.kernel.qualname}: defaultdict(factory, m) modelled as the mapping m (default insertion on missing-key reads not modelled)")
+            return self.eval(node.args[1], st)
+        if q == "collections.OrderedDict.fromkeys" and len(node.args) == 1:
+            # insertion-ordered de-duplication, as dict.fromkeys
+            return self.dedup_dict(self.materialise(self.eval(node.args[0], st), st, node), st)
         args, kwargs = self.eval_args(node, st)
         c = self.reg.contracts.get(q)
         if c is not None:
@@ -304,6 +311,17 @@ class CallMixin:
         """chain.from_iterable(rows): concatenation of a sequence of sequences, axiomatised by 2-D indexing:
         off(j) = start of row j in the result; row(i) = the row that result index i falls in."""
         S = rows.t
+        es_rows = elem_spec(rows)
+        if es_rows is not None and es_rows.kind == "opt":
+            es_rows = es_rows.arg
+        if es_rows is not None and es_rows.kind == "dict":
+            rowseq = uf("dictkeys", V, SeqV)   # iterating a dict yields its keys
+            out_spec = es_rows.arg[0]
+        elif es_rows is not None and es_rows.kind == "set":
+            raise Unsupported("chain.from_iterable over sets (order oracle)")
+        else:
+            rowseq = unS
+            out_spec = es_rows.arg if es_rows is not None and es_rows.kind == "seq" and isinstance(es_rows.arg, Spec) else VAL
         r = Q._fresh_sq(st, "flat")
         binders = st.notes.get("binders") or []
         off = z3.Function(fresh_name("off"), *[b.sort() for b in binders], IntS, IntS)
@@ -311,18 +329,26 @@ class CallMixin:
         j, t, i = fresh("fj", IntS), fresh("ft", IntS), fresh("fi", IntS)
         O_ = lambda x: off(*binders, x)
         R_ = lambda x: row(*binders, x)
-        rowj = unS(Q.At(S, j))
+        rowj = rowseq(Q.At(S, j))
         st.assume(O_(z3.IntVal(0)) == 0)
         st.assume(z3.ForAll([j], z3.Implies(z3.And(0 <= j, j < Q.Length(S)), z3.And(O_(j + 1) == O_(j) + Q.Length(rowj), O_(j) >= 0)), patterns=[O_(j)]))
         st.assume(Q.Length(r) == O_(Q.Length(S)))
         st.assume(z3.ForAll([j, t], z3.Implies(z3.And(0 <= j, j < Q.Length(S), 0 <= t, t < Q.Length(rowj)),
                                               z3.And(Q.At(r, O_(j) + t) == Q.At(rowj, t), O_(j) + t < Q.Length(r), R_(O_(j) + t) == j)),
                             patterns=[Q.At(rowj, t)]))
-        ri = unS(Q.At(S, R_(i)))
+        ri = rowseq(Q.At(S, R_(i)))
         st.assume(z3.ForAll([i], z3.Implies(z3.And(0 <= i, i < Q.Length(r)),
                                            z3.And(0 <= R_(i), R_(i) < Q.Length(S), O_(R_(i)) <= i, i < O_(R_(i)) + Q.Length(ri),
                                                   Q.At(r, i) == Q.At(ri, i - O_(R_(i))))), patterns=[Q.At(r, i)]))
-        return Sym("seq", r, Spec("seq", VAL))
+        # derived membership facts (consequences of the index axioms; stated so that no index witness is needed)
+        x = fresh("fx", V)
+        mrow = z3.Function(fresh_name("mrow"), *[b.sort() for b in binders], V, IntS)
+        M_ = lambda y: mrow(*binders, y)
+        st.assume(z3.ForAll([x], z3.Implies(seq_contains(r, x), z3.And(0 <= M_(x), M_(x) < Q.Length(S), seq_contains(rowseq(Q.At(S, M_(x))), x))),
+                            patterns=[seq_contains(r, x)]))
+        st.assume(z3.ForAll([j, x], z3.Implies(z3.And(0 <= j, j < Q.Length(S), seq_contains(rowj, x)), seq_contains(r, x)),
+                            patterns=[seq_contains(rowj, x)]))
+        return Sym("seq", r, Spec("seq", out_spec or VAL))
 
     def b_range(self, node, st):
         a = [as_int(self.eval(x, st), st) for x in node.args]
@@ -496,7 +522,7 @@ class CallMixin:
             if q is not None and q in self.reg.contracts:
                 args, kwargs = self.eval_args(node, st)
                 return self.apply_contract(self.reg.contracts[q], [base] + args, kwargs, st, node, label=q)
-            if base.py == "dict" and meth == "fromkeys":
+            if base.py in ("dict", "OrderedDict") and meth == "fromkeys":
                 s = self.materialise(self.eval(node.args[0], st), st, node)
                 return self.dedup_dict(s, st)
             return None
@@ -744,6 +770,18 @@ class CallMixin:
                 self.store_back(recv_node, Sym("dict", None, base.spec, DictPayload(r, p.vals, p.kspec, p.vspec, p.mode)), st)
                 got = unbox(p.vspec, z3.Select(p.vals, kb), st)
                 return got if d is None else self.ite(present, got, d, st)
+            if meth == "update" and len(args) == 1 and args[0].kind == "dict" and p.mode == "identity":
+                # d.update(o): keys of d (in place) followed by the new keys of o; values of o win
+                o = args[0].py
+                r = Q._fresh_sq(st, "updkeys")
+                x = fresh("ux", V)
+                st.assume(z3.ForAll([x], seq_contains(r, x) == z3.Or(seq_contains(p.keys, x), seq_contains(o.keys, x))))
+                st.assume(Q.Distinct(r))
+                st.assume(Q.PrefixOf(p.keys, r))
+                vals = self.fresh_term(st, "updvals", z3.ArraySort(V, V))
+                st.assume(z3.ForAll([x], z3.Select(vals, x) == z3.If(seq_contains(o.keys, x), z3.Select(o.vals, x), z3.Select(p.vals, x))))
+                self.store_back(recv_node, Sym("dict", None, base.spec, DictPayload(r, vals, p.kspec, p.vspec, p.mode)), st)
+                return S_none()
             raise Unsupported(f"dict.{meth}")
         raise Unsupported(f"mutate {base.kind}.{meth}")
 
